@@ -73,7 +73,7 @@ def run(chk):
     cm = run_model(cases)
     for c, a, b in zip(cases, ci, cm):
         chk.evaluations += 1
-        if a.startswith(("CRASH", "TIMEOUT")) or " PANIC" in a.split("|", 1)[-1]:
+        if a.startswith(("CRASH", "TIMEOUT", "HANG")) or " PANIC" in a.split("|", 1)[-1]:
             chk.monitor_fail("routing panicked on a route string", dict(case=c[:600], impl=a[:300]))
             continue
         built_ok = "PANIC@" not in a
